@@ -166,6 +166,9 @@ pub fn run_generated<S, F, G>(
     let per = cases / workers as u64;
     let rem = cases % workers as u64;
     let merged: Mutex<(Stats, Vec<Violation>)> = Mutex::new((Stats::default(), Vec::new()));
+    // once one worker has a failure (and starts shrinking it), the others stop generating:
+    // a failing tree must not cost 16 independent shrink runs
+    let stop = std::sync::atomic::AtomicBool::new(false);
     std::thread::scope(|sc| {
         for wi in 0..workers {
             let n = per + if (wi as u64) < rem { 1 } else { 0 };
@@ -173,6 +176,7 @@ pub fn run_generated<S, F, G>(
                 continue;
             }
             let merged = &merged;
+            let stop = &stop;
             let make_strategy = &make_strategy;
             let check = &check;
             let signature = &signature;
@@ -183,7 +187,7 @@ pub fn run_generated<S, F, G>(
                 cfg.cases = n.min(u32::MAX as u64) as u32;
                 cfg.failure_persistence = None;
                 cfg.rng_seed = RngSeed::Fixed(wseed);
-                cfg.max_shrink_iters = 4000;
+                cfg.max_shrink_iters = 1500;
                 cfg.max_global_rejects = 0x10000;
                 cfg.verbose = 0;
                 let mut runner = TestRunner::new(cfg);
@@ -191,6 +195,9 @@ pub fn run_generated<S, F, G>(
                 let stats = std::cell::RefCell::new(Stats::default());
                 let failed = std::cell::Cell::new(false);
                 let res = runner.run(&strat, |case| {
+                    if !failed.get() && stop.load(std::sync::atomic::Ordering::Relaxed) {
+                        return Ok(()); // another worker is already shrinking a failure
+                    }
                     let mut info = CaseInfo::default();
                     let r = check(&case, &mut info);
                     if !failed.get() {
@@ -199,6 +206,10 @@ pub fn run_generated<S, F, G>(
                     match r {
                         Ok(()) => Ok(()),
                         Err(e) => {
+                            if !failed.get() && stop.swap(true, std::sync::atomic::Ordering::Relaxed) {
+                                // lost the race: let the first worker report
+                                return Ok(());
+                            }
                             failed.set(true);
                             Err(TestCaseError::fail(e))
                         }
